@@ -17,7 +17,10 @@ def thorough_race(work, res):
     t.run(proofs_ok=True)
 
 
-CHECK = generic("C06", [dict(harness="linz", area="linz")], skel=SKEL, thorough_extra=thorough_race)
+# the ConcurrentPriorityQueue theorem takes "the inner heap refines the priority-queue spec" as a hypothesis; C05 proves it
+# for the heap MODEL, so that model is re-validated against the real internal/queue.PriorityQueue here as well
+CHECK = generic("C06", [dict(harness="linz", area="linz"), dict(harness="heap", area="heap", name="heap-under-cpq")],
+                skel=SKEL, thorough_extra=thorough_race)
 
 MANIFEST = dict(
     text=("Theorems in Lean 4 (Ekit/Props/C06.lean), each for every number of threads, every mix of calls and every "
